@@ -9,3 +9,97 @@ package bfe_module
 //@   props C48
 //@   nopanic
 //@   ensures[an_empty_list_of_the_given_kind] result0 != nil && result0.handlerType == handlerType && result0.handlers != nil
+
+// ---- C48: filters run in registration order; the first verdict other than go-on stops the chain ----
+
+// The verdict (and response) a filter gives is NAMED by an abstract function of the filter and its arguments;
+// filters are arbitrary code (no modifies clause: a call may write anything).
+//@ spec acceptVerdict(f AcceptFilter, s *bfe_basic.Session) int := abstract
+//@ spec forwardVerdict(f ForwardFilter, r *bfe_basic.Request) int := abstract
+//@ spec finishVerdict(f FinishFilter, s *bfe_basic.Session) int := abstract
+//@ spec responseVerdict(f ResponseFilter, r *bfe_basic.Request, res *bfe_http.Response) int := abstract
+//@ spec requestVerdict(f RequestFilter, r *bfe_basic.Request) int := abstract
+//@ spec requestResponse(f RequestFilter, r *bfe_basic.Request) *bfe_http.Response := abstract
+
+//@ func (AcceptFilter).FilterAccept
+//@   trusted module filters are arbitrary code; their verdict is named by an abstract function of the filter and the session (a filter runs at most once per walk of the chain)
+//@   ensures result0 == acceptVerdict(recv, a0)
+
+//@ func (*HandlerList).FilterAccept
+//@   props C48
+//@   requires hl != nil && hl.handlers != nil
+//@   frame FilterAccept keeps hl.handlers, any list.Element.Value
+//@   note the handler list is assumed not to be modified while its filters run (lists are built at start-up)
+//@   modifies *
+//@   let l := old(hl.handlers)
+//@   let n := llen(old(hl.handlers))
+//@   ensures[all_filters_say_go_on_then_go_on] (forall k int :: {lat(l, k)} 0 <= k && k < n ==> typeis(lat(l, k).Value, "AcceptFilter") && acceptVerdict(lat(l, k).Value, session) == BfeHandlerGoOn) ==> result0 == BfeHandlerGoOn
+//@   ensures[the_first_verdict_other_than_go_on_is_returned] forall k int :: {lat(l, k)} 0 <= k && k < n && typeis(lat(l, k).Value, "AcceptFilter") && acceptVerdict(lat(l, k).Value, session) != BfeHandlerGoOn && (forall j int :: {lat(l, j)} 0 <= j && j < k ==> typeis(lat(l, j).Value, "AcceptFilter") && acceptVerdict(lat(l, j).Value, session) == BfeHandlerGoOn) ==> result0 == acceptVerdict(lat(l, k).Value, session)
+//@   loop 1 invariant[position] hl.handlers == l && (e != nil ==> lof(e) == l && 0 <= lpos(e) && lpos(e) < n && e == lat(l, lpos(e)))
+//@   loop 1 invariant[so_far_everyone_said_go_on] retVal == BfeHandlerGoOn && (forall j int :: {lat(l, j)} 0 <= j && j < (e == nil ? n : lpos(e)) ==> typeis(lat(l, j).Value, "AcceptFilter") && acceptVerdict(lat(l, j).Value, session) == BfeHandlerGoOn)
+
+//@ func (RequestFilter).FilterRequest
+//@   trusted module filters are arbitrary code; their verdict is named by an abstract function of the filter and its arguments (a filter runs at most once per walk of the chain)
+//@   ensures result0 == requestVerdict(recv, request)
+//@   ensures result1 == requestResponse(recv, request)
+
+//@ func (*HandlerList).FilterRequest
+//@   props C48
+//@   requires hl != nil && hl.handlers != nil
+//@   frame FilterRequest keeps hl.handlers, any list.Element.Value
+//@   modifies *
+//@   let l := old(hl.handlers)
+//@   let n := llen(old(hl.handlers))
+//@   ensures[all_filters_say_go_on_then_go_on] (forall k int :: {lat(l, k)} 0 <= k && k < n ==> typeis(lat(l, k).Value, "RequestFilter") && requestVerdict(lat(l, k).Value, req) == BfeHandlerGoOn) ==> result0 == BfeHandlerGoOn
+//@   ensures[the_first_verdict_other_than_go_on_is_returned] forall k int :: {lat(l, k)} 0 <= k && k < n && typeis(lat(l, k).Value, "RequestFilter") && requestVerdict(lat(l, k).Value, req) != BfeHandlerGoOn && (forall j int :: {lat(l, j)} 0 <= j && j < k ==> typeis(lat(l, j).Value, "RequestFilter") && requestVerdict(lat(l, j).Value, req) == BfeHandlerGoOn) ==> result0 == requestVerdict(lat(l, k).Value, req)
+//@   ensures[with_the_response_of_that_filter] forall k int :: {lat(l, k)} 0 <= k && k < n && typeis(lat(l, k).Value, "RequestFilter") && requestVerdict(lat(l, k).Value, req) != BfeHandlerGoOn && (forall j int :: {lat(l, j)} 0 <= j && j < k ==> typeis(lat(l, j).Value, "RequestFilter") && requestVerdict(lat(l, j).Value, req) == BfeHandlerGoOn) ==> result1 == requestResponse(lat(l, k).Value, req)
+//@   loop 1 invariant[position] hl.handlers == l && (e != nil ==> lof(e) == l && 0 <= lpos(e) && lpos(e) < n && e == lat(l, lpos(e)))
+//@   loop 1 invariant[so_far_everyone_said_go_on] retVal == BfeHandlerGoOn && (forall j int :: {lat(l, j)} 0 <= j && j < (e == nil ? n : lpos(e)) ==> typeis(lat(l, j).Value, "RequestFilter") && requestVerdict(lat(l, j).Value, req) == BfeHandlerGoOn)
+
+//@ func (ForwardFilter).FilterForward
+//@   trusted module filters are arbitrary code; their verdict is named by an abstract function of the filter and its arguments (a filter runs at most once per walk of the chain)
+//@   ensures result0 == forwardVerdict(recv, a0)
+
+//@ func (*HandlerList).FilterForward
+//@   props C48
+//@   requires hl != nil && hl.handlers != nil
+//@   frame FilterForward keeps hl.handlers, any list.Element.Value
+//@   modifies *
+//@   let l := old(hl.handlers)
+//@   let n := llen(old(hl.handlers))
+//@   ensures[all_filters_say_go_on_then_go_on] (forall k int :: {lat(l, k)} 0 <= k && k < n ==> typeis(lat(l, k).Value, "ForwardFilter") && forwardVerdict(lat(l, k).Value, req) == BfeHandlerGoOn) ==> result0 == BfeHandlerGoOn
+//@   ensures[the_first_verdict_other_than_go_on_is_returned] forall k int :: {lat(l, k)} 0 <= k && k < n && typeis(lat(l, k).Value, "ForwardFilter") && forwardVerdict(lat(l, k).Value, req) != BfeHandlerGoOn && (forall j int :: {lat(l, j)} 0 <= j && j < k ==> typeis(lat(l, j).Value, "ForwardFilter") && forwardVerdict(lat(l, j).Value, req) == BfeHandlerGoOn) ==> result0 == forwardVerdict(lat(l, k).Value, req)
+//@   loop 1 invariant[position] hl.handlers == l && (e != nil ==> lof(e) == l && 0 <= lpos(e) && lpos(e) < n && e == lat(l, lpos(e)))
+//@   loop 1 invariant[so_far_everyone_said_go_on] retVal == BfeHandlerGoOn && (forall j int :: {lat(l, j)} 0 <= j && j < (e == nil ? n : lpos(e)) ==> typeis(lat(l, j).Value, "ForwardFilter") && forwardVerdict(lat(l, j).Value, req) == BfeHandlerGoOn)
+
+//@ func (ResponseFilter).FilterResponse
+//@   trusted module filters are arbitrary code; their verdict is named by an abstract function of the filter and its arguments (a filter runs at most once per walk of the chain)
+//@   ensures result0 == responseVerdict(recv, req, res)
+
+//@ func (*HandlerList).FilterResponse
+//@   props C48
+//@   requires hl != nil && hl.handlers != nil
+//@   frame FilterResponse keeps hl.handlers, any list.Element.Value
+//@   modifies *
+//@   let l := old(hl.handlers)
+//@   let n := llen(old(hl.handlers))
+//@   ensures[all_filters_say_go_on_then_go_on] (forall k int :: {lat(l, k)} 0 <= k && k < n ==> typeis(lat(l, k).Value, "ResponseFilter") && responseVerdict(lat(l, k).Value, req, res) == BfeHandlerGoOn) ==> result0 == BfeHandlerGoOn
+//@   ensures[the_first_verdict_other_than_go_on_is_returned] forall k int :: {lat(l, k)} 0 <= k && k < n && typeis(lat(l, k).Value, "ResponseFilter") && responseVerdict(lat(l, k).Value, req, res) != BfeHandlerGoOn && (forall j int :: {lat(l, j)} 0 <= j && j < k ==> typeis(lat(l, j).Value, "ResponseFilter") && responseVerdict(lat(l, j).Value, req, res) == BfeHandlerGoOn) ==> result0 == responseVerdict(lat(l, k).Value, req, res)
+//@   loop 1 invariant[position] hl.handlers == l && (e != nil ==> lof(e) == l && 0 <= lpos(e) && lpos(e) < n && e == lat(l, lpos(e)))
+//@   loop 1 invariant[so_far_everyone_said_go_on] retVal == BfeHandlerGoOn && (forall j int :: {lat(l, j)} 0 <= j && j < (e == nil ? n : lpos(e)) ==> typeis(lat(l, j).Value, "ResponseFilter") && responseVerdict(lat(l, j).Value, req, res) == BfeHandlerGoOn)
+
+//@ func (FinishFilter).FilterFinish
+//@   trusted module filters are arbitrary code; their verdict is named by an abstract function of the filter and its arguments (a filter runs at most once per walk of the chain)
+//@   ensures result0 == finishVerdict(recv, a0)
+
+//@ func (*HandlerList).FilterFinish
+//@   props C48
+//@   requires hl != nil && hl.handlers != nil
+//@   frame FilterFinish keeps hl.handlers, any list.Element.Value
+//@   modifies *
+//@   let l := old(hl.handlers)
+//@   let n := llen(old(hl.handlers))
+//@   ensures[all_filters_say_go_on_then_go_on] (forall k int :: {lat(l, k)} 0 <= k && k < n ==> typeis(lat(l, k).Value, "FinishFilter") && finishVerdict(lat(l, k).Value, session) == BfeHandlerGoOn) ==> result0 == BfeHandlerGoOn
+//@   ensures[the_first_verdict_other_than_go_on_is_returned] forall k int :: {lat(l, k)} 0 <= k && k < n && typeis(lat(l, k).Value, "FinishFilter") && finishVerdict(lat(l, k).Value, session) != BfeHandlerGoOn && (forall j int :: {lat(l, j)} 0 <= j && j < k ==> typeis(lat(l, j).Value, "FinishFilter") && finishVerdict(lat(l, j).Value, session) == BfeHandlerGoOn) ==> result0 == finishVerdict(lat(l, k).Value, session)
+//@   loop 1 invariant[position] hl.handlers == l && (e != nil ==> lof(e) == l && 0 <= lpos(e) && lpos(e) < n && e == lat(l, lpos(e)))
+//@   loop 1 invariant[so_far_everyone_said_go_on] retVal == BfeHandlerGoOn && (forall j int :: {lat(l, j)} 0 <= j && j < (e == nil ? n : lpos(e)) ==> typeis(lat(l, j).Value, "FinishFilter") && finishVerdict(lat(l, j).Value, session) == BfeHandlerGoOn)
